@@ -450,6 +450,19 @@ def check(rep, F, tier, replay=None):
     int_range_rule(rep, F)
     from ruleutil import json_filter_rule
     json_filter_rule(rep, F)
+    # FILL-uncond: the helpers the JSON readers fill a Plutus map with add on every path
+    from ruleutil import hir_must as _hm
+    rep.rule("FILL-uncond", "PlutusMap::add_value / add_value_move (the helpers the JSON -> datum converters and the CBOR reader fill a Plutus map with) add the value to the key's value list on every path (HIR must-analysis): a Plutus map may hold the same key / value pair twice (its CBOR writer emits both), so a helper that skips a value that is `already there` makes detailed-schema JSON read back a different datum with different bytes and a different hash")
+    n_fu = 0
+    for key__ in ("PlutusMap::add_value", "PlutusMap::add_value_move"):
+        ids__ = F.by_key(key__)
+        if len(ids__) != 1 or ids__[0] not in F.hir:
+            rep.lost("%s not found" % key__)
+            continue
+        n_fu += 1
+        rep.inst("FILL-uncond")
+        if not _hm(F.hir[ids__[0]]["body"], lambda x: x[0] == "mcall" and x[2] in ("add", "add_move", "push")):
+            rep.violation("FILL-uncond", key__, "%s can return without adding the value it was given: a repeated key / value pair of a Plutus map is dropped when the datum is read from (detailed-schema) JSON" % key__, {})
     return rep.finish(
         EXPLANATION,
         ["serde derive output is a faithful field-by-field form", "the registered inverse pairs are inverse functions (their own round trips are C01/C11/C14 clauses)"],
